@@ -27,10 +27,33 @@ def load_matrix():
     sys.path.insert(0, os.path.join(VERIF, 'selftest'))
     import matrix
     importlib.reload(matrix)
-    return matrix.MUTANTS
+    return list(matrix.MUTANTS) + load_seeds()
 
 
-def make_scratch(repo, edits):
+def load_seeds():
+    """The independently seeded changes of /verif/seeded as additional fire entries:
+    a seed recorded as detected by property P must keep making P's check fire."""
+    out = []
+    sd = os.path.join(VERIF, 'seeded')
+    if not os.path.isdir(sd):
+        return out
+    for name in sorted(os.listdir(sd)):
+        mp = os.path.join(sd, name, 'meta.json')
+        pp = os.path.join(sd, name, 'patch.diff')
+        if not (os.path.exists(mp) and os.path.exists(pp)):
+            continue
+        with open(mp) as fh:
+            meta = json.load(fh)
+        fire = {p: list(r) for p, r in meta.get('detected_by', {}).items()}
+        if not fire:
+            continue
+        out.append({'id': 'seed-' + name, 'kind': 'fire', 'props': sorted(fire), 'fire': fire,
+                    'edits': [], 'patch': pp,
+                    'what': '%s (%s)' % (meta.get('change', ''), meta.get('needs_to_manifest', ''))})
+    return out
+
+
+def make_scratch(repo, edits, patch=None):
     """Copy the analysed sources, apply edits [(relpath, old, new)].
     Returns (dir, None) or (None, reason) when an edit no longer applies."""
     base = os.environ.get('TMPDIR') or '/var/tmp'
@@ -39,6 +62,13 @@ def make_scratch(repo, edits):
                     ignore=shutil.ignore_patterns('__pycache__', '*.pyc'))
     for s in ENTRY_SCRIPTS.values():
         shutil.copy(os.path.join(repo, s), os.path.join(d, s))
+    if patch:
+        import subprocess
+        r = subprocess.run(['patch', '-p1', '-s', '-f', '-d', d, '-i', patch],
+                           capture_output=True, text=True)
+        if r.returncode:
+            shutil.rmtree(d, ignore_errors=True)
+            return None, 'patch does not apply: %s' % (r.stdout + r.stderr).strip()[:200]
     for rel, old, new in edits:
         p = os.path.join(d, rel)
         if not os.path.exists(p):
@@ -78,7 +108,7 @@ def run_on(prop, repo):
 
 def _one(args):
     m, repo, only = args
-    d, why = make_scratch(repo, m['edits'])
+    d, why = make_scratch(repo, m['edits'], m.get('patch'))
     if d is None:
         return (m['id'], 'stale', why)
     try:
